@@ -2,6 +2,11 @@
 EXTENDS Replica, ReplicaProbe, Json
 KindsAll == {"transfer", "witness0", "deploy0", "evm"}
 KindsChain == KindsAll \cup {"setparam"}
+KindsEnv == {"envhash", "envctx", "envhdr"}
+KindsPath == {"transfer"} \cup KindsEnv
+KindsIntent == KindsChain \cup KindsEnv
+PathsAll == {"exec-submit", "addblock", "headers-addblock"}
+PathsOne == {"addblock"}
 Needs == {"transfer", "witness0"}
 Fees == {"transfer"}
 StateOut0 == 0
